@@ -84,6 +84,9 @@ def upper_bound(t, depth=0, env=None):
         return bits - 1          # floor(log2 n) of an n-bit unsigned integer
     if t[0] == "cast":
         return upper_bound(t[3], depth + 1, env)
+    if t[0] == "bin" and t[1] == "Sub" and t[3][0] == "const" and isinstance(t[3][2], int) and t[3][2] >= 0:
+        a_ = upper_bound(t[2], depth + 1, env)
+        return None if a_ is None else max(a_ - t[3][2], 0)          # (no wrap: the subtraction has its own overflow assert)
     if t[0] == "bin" and t[1] in ("Sub", "Div", "Rem", "Shr", "BitAnd"):
         return upper_bound(t[2], depth + 1, env)          # unsigned: subtracting / dividing / masking only decreases
     if t[0] == "bin" and t[1] in ("Mul", "Add"):
@@ -328,6 +331,15 @@ REVIEWED = {
 _callers = {}
 
 
+def nosite(t):
+    """a term without its call sites: two calls of a pure method on the same value are the same value"""
+    if not isinstance(t, tuple) or not t:
+        return t
+    if t[0] == "call":
+        return ("call", t[1], tuple(nosite(x) for x in t[2]), None) + tuple(t[4:])
+    return tuple(nosite(x) if isinstance(x, tuple) else x for x in t)
+
+
 def _strip_buf(t):
     """the buffer a length is taken of, through in-place updates and views: len(buf{as_mut(); copy_from_slice(..)}) is len(buf)"""
     while isinstance(t, tuple) and t:
@@ -388,6 +400,23 @@ def assertion_discharge(P, f, v, bb):
     region.add(bb)
     entry = [(p, q, lab) for q in region for (p, lab) in f.preds().get(q, ()) if p not in region]
     facts = [fa for e in entry for (e2, fa) in v.own_facts if e2 == e and fa[0] == "cond" and fa[1] not in ("other",) and fa[3] is not None]
+    if len(entry) == 1:
+        # (e) `assert!(!x.is_empty())` where the function goes on to compute `x.len() - c` (c >= 1): the subtraction aborts under
+        #     exactly that condition and carries the review
+        for (e2, fa) in v.own_facts:
+            if e2 == entry[0] and fa[0] == "cond" and fa[1] == "empty" and fa[4]:
+                X = _strip_buf(fa[2])
+                after = f.reach(entry[0][0])
+                for b2 in after:
+                    t2 = f.blocks[b2].term
+                    if t2["k"] == "assert" and t2.get("kind") == "overflow:Sub":
+                        c2 = v.cx.operand(t2["cond"])
+                        c2 = c2[1] if c2[0] == "field" and c2[3] == "1" else c2
+                        if c2[0] == "bin" and c2[1] == "SubWithOverflow" and c2[3][0] == "const" and isinstance(c2[3][2], int) and c2[3][2] >= 1:
+                            L = c2[2]
+                            LX = _strip_buf(L[2][0]) if is_call(L, name="len") and len(L[2]) == 1 else (_strip_buf(L[1]) if L[0] == "len" else None)
+                            if LX is not None and LX == X:
+                                return "alias:assert:overflow:Sub"
     if len(entry) != 1 or not facts:
         return None
     fa = facts[0]
@@ -415,6 +444,23 @@ def assertion_discharge(P, f, v, bb):
         return arg_free(t) and not mentions(t, lambda s_: is_call(s_) and s_[1].rsplit("::", 1)[-1] in ("random", "fill_bytes", "next"))
     if fixed(a) and fixed(b_):
         return "alias:input-independent-condition"
+    # (f) `assert!(x < N)` where the function goes on to compute `N - x - 1`: that subtraction aborts exactly when x >= N
+    if kind == "lt" and not holds and b_[0] == "const" and isinstance(b_[2], int):
+        after = f.reach(entry[0][0])
+        for b2 in after:
+            t2 = f.blocks[b2].term
+            if t2["k"] == "assert" and t2.get("kind") == "overflow:Sub":
+                c2 = v.cx.operand(t2["cond"])
+                c2 = c2[1] if c2[0] == "field" and c2[3] == "1" else c2
+                if c2[0] == "bin" and c2[1] == "SubWithOverflow" and c2[3] == ("const", c2[3][1], 1) and \
+                        c2[2][0] == "bin" and c2[2][1] == "Sub" and c2[2][2][0] == "const" and c2[2][2][2] == b_[2] and \
+                        nosite(c2[2][3]) == nosite(a) and is_call(a) and a[1].rsplit("::", 1)[-1] in ("leading_zeros", "trailing_zeros", "len", "count_ones"):
+                    return "alias:assert:overflow:Sub"
+    # (d) `assert!(x < N)` with a static upper bound of x below the constant N
+    if kind == "lt" and not holds and b_[0] == "const" and isinstance(b_[2], int):
+        ub = upper_bound(a)
+        if ub is not None and ub < b_[2]:
+            return "alias:static-upper-bound-below-the-limit"
     if kind == "eq" and not holds:
         ln = lambda t: _strip_buf(t[2][0]) if is_call(t, name="len") and len(t[2]) == 1 else (_strip_buf(t[1]) if t[0] == "len" else None)
         X, Y = ln(a), ln(b_)
@@ -466,7 +512,21 @@ def normal_kind(P, f, v, k, bb):
             if n_ is not None and a[1][2] <= n_:
                 return "alias:constant-position-within-a-length-fixed-by-type"
             return "call:Index::index"
-    if k == "call:panic:assert_failed":
+        if len(a) == 2:
+            # `x.split_at(k)` behind the refusal `x.len() != k + m` (or `!= k`): k <= len on every path to the site
+            X, K = _strip_buf(a[0]), a[1]
+            def est(fa):
+                if fa[0] != "cond" or fa[1] != "eq" or fa[3] is None or not fa[4]:
+                    return False
+                for l_, r_ in ((fa[2], fa[3]), (fa[3], fa[2])):
+                    LX = _strip_buf(l_[2][0]) if is_call(l_, name="len") and len(l_[2]) == 1 else (_strip_buf(l_[1]) if l_[0] == "len" else None)
+                    if LX is not None and LX == X and (r_ == K or (r_[0] == "bin" and r_[1] == "Add" and K in (r_[2], r_[3]))):
+                        return True
+                return False
+            edges = {e for (e, fa) in v.own_facts if est(fa)}
+            if edges and not sep(f, edges, {bb}):
+                return "alias:split-position-within-an-established-length"
+    if k in ("call:panic:assert_failed", "call:panic:panic"):
         r = assertion_discharge(P, f, v, bb)
         if r is not None:
             return r
@@ -502,6 +562,23 @@ def attributed(P, f, depth=0):
         if g.kind != "Closure":
             return attributed(P, g, depth + 1)
     return f.key
+
+
+def attributed_all(P, f):
+    """like attributed(), for a private helper shared by a few callers (the same expression extracted from two functions): its
+    sites are reviewed with *each* caller (every caller needs a row of that kind)"""
+    one = attributed(P, f)
+    if one != f.key:
+        return [one]
+    if any(f.key.endswith(suffix) for (suffix, _k) in REVIEWED):
+        return [f.key]
+    cs = _callers[id(P)].get(f.key, set())
+    if f.kind != "Closure" and f.j.get("vis", "") != "Public" and not f.j.get("impl_trait") and not f.j.get("reachable") \
+            and 2 <= len(cs) <= 3 and f.crate.startswith("frost") and all(P.fns[c].kind != "Closure" for c in cs):
+        from ..inline import vocabulary
+        if f.name not in vocabulary():
+            return sorted({attributed(P, P.fns[c], 1) for c in cs})
+    return [f.key]
 
 
 def run(ctx):
@@ -588,7 +665,8 @@ def run(ctx):
             auto += 1
             ctx.ok("PANIC-auto", f.key, "%s@same-condition-as:%s" % (k, nk[6:]))
             continue
-        groups.setdefault((attributed(P, f), nk), []).append((f.key, bb))
+        for owner in attributed_all(P, f):
+            groups.setdefault((owner, nk), []).append((f.key, bb))
     used = set()
     for (fk, k), sites in sorted(groups.items()):
         f = P.fns[fk]
